@@ -107,6 +107,46 @@ def forward_sites_check(ch: Checker, rule: str, want_via: bool, via_rule: Option
         ch.bad(rule, None, 'forward sites', 'no site forwarding a rebuilt request was found in HttpProxyPlugin', module_rel='proxy/http/proxy/server.py')
 
 
+def _expand_helper_calls(prog: Program, m: Any, e: ast.AST, depth: int = 3) -> ast.AST:
+    """a canned packet may be built through a small module-level helper (`X = _error_pkt(400, b'BAD REQUEST')`): when the helper's
+    body is a single `return <expr>` the call is replaced by that expression with the arguments substituted for the parameters"""
+    import copy as _copy
+    if depth <= 0:
+        return e
+
+    class _Exp(ast.NodeTransformer):
+        def visit_Call(self, c: ast.Call) -> ast.AST:
+            self.generic_visit(c)
+            if not isinstance(c.func, (ast.Name, ast.Attribute)) or (attr_chain(c.func) or '').split('.')[-1] in ('build_http_response', 'memoryview', 'bytes_', 'text_'):
+                return c
+            r = prog.resolve_expr(m, c.func)
+            if r[0] != 'func' or r[1].cls is not None:
+                return c
+            fn = r[1]
+            node = getattr(fn, 'orig_node', fn.node)
+            body = [s_ for i, s_ in enumerate(node.body) if not (i == 0 and isinstance(s_, ast.Expr) and isinstance(s_.value, ast.Constant) and isinstance(s_.value.value, str))]
+            if len(body) != 1 or not isinstance(body[0], ast.Return) or body[0].value is None or node.args.vararg or node.args.kwarg:
+                return c
+            if not any(isinstance(x, ast.Call) and (attr_chain(x.func) or '').split('.')[-1] == 'build_http_response' for x in ast.walk(body[0].value)):
+                return c
+            params = [a.arg for a in node.args.args]
+            defaults = node.args.defaults
+            bind = {params[len(params) - len(defaults) + i]: d for i, d in enumerate(defaults)}
+            for pn, a in zip(params, c.args):
+                bind[pn] = a
+            for k in c.keywords:
+                if k.arg is not None:
+                    bind[k.arg] = k.value
+            if any(pn not in bind for pn in params):
+                return c
+
+            class _Sub(ast.NodeTransformer):
+                def visit_Name(self, n: ast.Name) -> ast.AST:
+                    return _copy.deepcopy(bind[n.id]) if isinstance(n.ctx, ast.Load) and n.id in bind else n
+            return _expand_helper_calls(prog, fn.module, _Sub().visit(_copy.deepcopy(body[0].value)), depth - 1)
+    return ast.fix_missing_locations(_Exp().visit(_copy.deepcopy(e)))
+
+
 def eval_response_constant(prog: Program, ce: ConstEval, name: str, module: str = 'proxy.http.responses') -> Optional[Dict[str, Any]]:
     m = prog.module(module)
     ent = m.ns.get(name)
@@ -117,6 +157,7 @@ def eval_response_constant(prog: Program, ce: ConstEval, name: str, module: str 
 
 def eval_response_call(prog: Program, ce: ConstEval, m: Any, e: ast.AST, env: Optional[Dict[str, Any]] = None) -> Optional[Dict[str, Any]]:
     """evaluate memoryview(build_http_response(...)) / build_http_response(...) arguments"""
+    e = _expand_helper_calls(prog, m, e)
     call = None
     for n in ast.walk(e):
         if isinstance(n, ast.Call) and (attr_chain(n.func) or '').split('.')[-1] == 'build_http_response':
